@@ -532,8 +532,15 @@ func (self Node) Index(i int) (v Node) {
 	if it.Err != nil {
 		return errNode(meta.ErrRead, "", it.Err)
 	}
+	if !it.HasNext() {
+		// the list holds fewer elements than its header declares
+		return errNode(meta.ErrRead, fmt.Sprintf("index %d exceeds the data of list/set", i), nil)
+	}
 
 	s, e = it.Next(UseNativeSkipForGet)
+	if it.Err != nil {
+		return errNode(meta.ErrRead, "", it.Err)
+	}
 	v = self.slice(s, e, self.et)
 ret:
 	// it.Recycle()
